@@ -91,6 +91,19 @@ CHECKS = {
         "SasviewModel class-level caches are not under contract yet",
    technique=TECH + "Python AST -> VCs with loop invariants -> z3; frame and stale-buffer witnesses replayed on real kernels",
    design="DESIGN.md 6 C11"),
+ "C12": dict(engine="cvc",
+   text="Per oriented model the 1-D function (Fq or Iq, quadrature loops summarised as Sigma terms) and the 2-D function (Iqac/Iqabc) "
+        "are executed symbolically from clang's AST of the generated source; the claim 'F2_1d = SUM_n c_n I2d(q n_n) with unit "
+        "directions n_n and node weights c_n independent of q and the shape parameters' is proved as a polynomial identity on the "
+        "Sigma-normal-form summand for symbolic node indices, with the unit directions discovered among the sin/cos and "
+        "(sqrt(1-u^2), u) atoms of the summand.  Coverage is per model and reported in the evidence (models under contract vs "
+        "bounded numeric stand-in vs not checked).",
+   note="models whose 1-D and 2-D functions are formulated independently (or whose Fq leaves the subset, or whose direction search "
+        "exceeds its time budget) get a bounded numeric stand-in (independent Gauss-Legendre orientation average of the compiled "
+        "2-D kernel, converged points only), never counted as proved; paracrystals have no reliable numeric reference and are NOT "
+        "CHECKED unless the identity closes; accuracy of the model's own quadrature is not claimed; two recorded known findings",
+   technique=TECH + "clang JSON AST -> Sigma-normal forms -> polynomial identities (complete normal form); numeric orientation-average replay",
+   design="DESIGN.md 6 C12"),
  "C13": dict(engine="symcheck",
    text="For every shape:* model with length/SLD/angle/dimensionless units every C function reachable from Iq/Fq/Iqac/Iqabc/form_volume/"
         "shell_volume/radius_effective (clang AST of the generated source) is graded with degree vectors (lambda, mu) derived from "
